@@ -62,11 +62,20 @@ func TestVerifC05(t *testing.T) {
 		failover, resetup, preswitch, listdead, semisync bool
 		delay int
 		cascade bool // a cascade replica c1 (streaming from h2) is registered as well
+		race    bool // an operator's request lands right after each read of the (absent) request by a manager and is withdrawn
+		             // at the end of the activation unless the manager tried to file meanwhile
 	}
 	var bases []base
 	// all single-gate-closed cells around the all-open cell, then the random product
-	open := base{"dead_mysql", "both_ok", "none", "none", "steady", true, false, false, false, true, 0, false}
+	open := base{"dead_mysql", "both_ok", "none", "none", "steady", true, false, false, false, true, 0, false, false}
 	bases = append(bases, open)
+	for _, mc := range mconds {
+		for _, d := range []int{0, 5} {
+			b := open
+			b.mcond, b.delay, b.race = mc, d, true
+			bases = append(bases, b)
+		}
+	}
 	for _, mc := range mconds {
 		b := open
 		b.mcond = mc
@@ -105,7 +114,7 @@ func TestVerifC05(t *testing.T) {
 	}
 	for k := 0; k < nrand; k++ {
 		bases = append(bases, base{mconds[rng.Intn(len(mconds))], repls[rng.Intn(3)], maints[rng.Intn(4)], lasts[rng.Intn(4)], hists[rng.Intn(len(hists))],
-			rng.Intn(5) != 0, rng.Intn(2) == 0, rng.Intn(6) == 0, rng.Intn(4) == 0, rng.Intn(4) != 0, []int{0, 5}[rng.Intn(2)], rng.Intn(3) == 0})
+			rng.Intn(5) != 0, rng.Intn(2) == 0, rng.Intn(6) == 0, rng.Intn(4) == 0, rng.Intn(4) != 0, []int{0, 5}[rng.Intn(2)], rng.Intn(3) == 0, false})
 	}
 	ownStart := time.Now()
 	if p, err := process.NewProcess(int32(os.Getpid())); err == nil {
@@ -122,6 +131,11 @@ func TestVerifC05(t *testing.T) {
 			break
 		}
 		id := fmt.Sprintf("c05-%s-%s-%s-%s-%s-fo%v-ru%v-ps%v-ld%v-ss%v-d%d-c%v", b.mcond, b.repl, b.maint, b.last, b.hist, b.failover, b.resetup, b.preswitch, b.listdead, b.semisync, b.delay, b.cascade)
+		if b.race {
+			id += "-race"
+		}
+		injected := map[string]bool{}
+		lastSwitchBy := "" // initiator of the request currently in the tree ("" = none)
 		hosts := []string{"h1", "h2", "h3"}
 		all := hosts
 		var casc map[string]string
@@ -333,6 +347,11 @@ func TestVerifC05(t *testing.T) {
 						}
 						a.bad = nbad
 						a.susp = !nbad && !reach
+					case ev.K == "app" && ev.Op == "Exit" && ev.Arg == "Manager" && injected[ev.By] && curAct[ev.By] != nil && !curAct[ev.By].filed:
+						// the manager did not try to file in this activation: the operator withdraws the request
+						injected[ev.By] = false
+						delete(curAct, ev.By)
+						s.Z.Remove(vNS + "/" + pathCurrentSwitch)
 					case ev.K == "app" && ev.Op == "Exit" && ev.Arg == "Manager":
 						if a := curAct[ev.By]; a != nil && a.susp && b.maint == "none" && !b.preswitch && !a.pending {
 							rows = append(rows, gateRow{Kind: "susp", Scn: id, By: ev.By, ClusterWideCalls: a.calls, Filed: a.filed, Maintenance: b.maint})
@@ -346,10 +365,23 @@ func TestVerifC05(t *testing.T) {
 						if a := curAct[ev.By]; a != nil {
 							a.calls++
 						}
-					case ev.K == "zk" && ev.At == pathCurrentSwitch && ev.Op == "Create" && ev.By != "tool":
+					case ev.K == "zk" && ev.At == pathCurrentSwitch && (ev.Op == "Delete" || ev.Op == "ToolDelete") && ev.Res == "ok":
+						lastSwitchBy = ""
+					case ev.K == "zk" && ev.At == pathCurrentSwitch && ev.Op == "ToolSet" && ev.Res == "ok":
 						var sw Switchover
 						json.Unmarshal([]byte(ev.Arg), &sw)
-						if sw.Cause != CauseAuto {
+						lastSwitchBy = sw.InitiatedBy
+					case ev.K == "zk" && ev.At == pathCurrentSwitch && (ev.Op == "Create" || ev.Op == "SetData") && ev.By != "tool":
+						var sw Switchover
+						json.Unmarshal([]byte(ev.Arg), &sw)
+						// a FILING is a fresh automatic request (no attempt counted, not started, no result), however it is written;
+						// the manager's progress updates of a request it is working on are not
+						fresh := sw.Cause == CauseAuto && sw.RunCount == 0 && sw.StartedBy == "" && sw.Result == nil
+						existedBy := lastSwitchBy
+						if ev.Res == "ok" {
+							lastSwitchBy = sw.InitiatedBy
+						}
+						if !fresh || (ev.Op == "SetData" && existedBy == sw.InitiatedBy) {
 							return
 						}
 						a := curAct[ev.By]
@@ -367,7 +399,7 @@ func TestVerifC05(t *testing.T) {
 							LastAutoAgeMs: -1, SinceFirstBadMs: -1}
 						// the tree lock is held: the tree is read from the last known values kept by the driver
 						row.Maintenance = s.maintNow
-						row.SwitchExisted = false // the create succeeded, hence it was absent
+						row.SwitchExisted = ev.Op == "SetData" && existedBy != "" // a successful create means it was absent
 						if o != nil && o.firstBad >= 0 {
 							row.SinceFirstBadMs = s.now() - o.firstBad
 						}
@@ -423,6 +455,9 @@ func TestVerifC05(t *testing.T) {
 				}
 			},
 			perRound: func(s *vSim, round int) bool {
+				if b.race && round == 0 {
+					s.Z.Hook = &c05RaceHook{inner: s.Z.Hook, s: s, injected: injected}
+				}
 				// keep the driver's copy of the tree values (read outside any lock)
 				s.maintNow = "none"
 				if d, ok := s.zkGet(pathMaintenance); ok {
@@ -493,4 +528,35 @@ func TestVerifC05(t *testing.T) {
 		meta.emit(map[string]any{"scn": id, "scenario": sc, "filed": len(rows)})
 	}
 	meta.emit(map[string]any{"summary": true, "runs": runs, "bases": runs, "stragglers": vStragglers})
+}
+
+
+// c05RaceHook files an operator's request right after a manager has read "no request" (the gate "no other request is
+// active" is then decided on a stale read: only the atomic create-if-absent of the filing keeps it).
+type c05RaceHook struct {
+	inner    verifsim.ZkHook
+	s        *vSim
+	injected map[string]bool
+}
+
+func (h *c05RaceHook) BeforeZk(client, op, path string) (int32, bool) {
+	if h.inner != nil {
+		return h.inner.BeforeZk(client, op, path)
+	}
+	return 0, false
+}
+
+func (h *c05RaceHook) AfterZk(client, op, path string, code int32) bool {
+	if op == "GetData" && path == vNS+"/"+pathCurrentSwitch && code != 0 && client != "tool" && !h.injected[client] {
+		if in := h.s.insts[client]; in != nil && in.app.state == stateManager {
+			h.injected[client] = true
+			sw := Switchover{To: "h3", Cause: CauseManual, MasterTransition: SwitchoverTransition, InitiatedBy: "operator", InitiatedAt: time.Now()}
+			b, _ := json.Marshal(&sw)
+			h.s.Z.Put(vNS+"/"+pathCurrentSwitch, string(b))
+		}
+	}
+	if h.inner != nil {
+		return h.inner.AfterZk(client, op, path, code)
+	}
+	return false
 }
